@@ -39,10 +39,16 @@ Definition run_world (w : world) (es : list op) : sx :=
 
 Definition rejected : sx := L [A (-3)].
 
+(** the last element of an observation: the DigestKeyFormat the constructor
+    reports for the backend (BlobAccessInfo.DigestKeyFormat, which outer
+    decorators - existence caches, replicators - key their own state by):
+    1 = keys carry the instance name *)
+Definition key_format_obs (w : world) : sx := L [A 9; of_bool (c_inst_keys (w_cfg w))].
+
 Definition run01W (inp : sx) : sx :=
   match wired_world inp with
   | None => rejected
-  | Some w => run_world w (dec_ops inp)
+  | Some w => L (sx_list (run_world w (dec_ops inp)) ++ [key_format_obs w])
   end.
 
 (** the C01 and C05 monitors, on a world rather than on an encoded input *)
@@ -67,7 +73,7 @@ Definition judgeW (mon : world -> list op -> sx -> list Z) (inp obs : sx) : sx :
   | None => verdict (sx_eqb obs rejected) false rejected (L [])
   | Some w =>
       let es := dec_ops inp in
-      let m := run_world w es in
+      let m := L (sx_list (run_world w es) ++ [key_format_obs w]) in
       let v := if sx_eqb obs rejected then [] else mon w es obs in
       verdict (all2b obs_agreeW (sx_list m) (sx_list obs))
               (negb (match v with [] => true | _ => false end)) m (of_Zs v)
